@@ -1,6 +1,78 @@
-(* C10 — aggregations emit exactly one correct point per bucket, once, in order. (being extended) *)
-From CRNG Require Import Base.ListX Base.Bytes Model.Aggregator.
+(* C10 — aggregations emit exactly one correct point per bucket, once, in order.
+   F is an arbitrary float type with arbitrary operations: no floating-point law is assumed. *)
+From CRNG Require Import Base.ListX Base.Bytes Model.Aggregator
+  Proofs.AggregatorProofs Proofs.AggregatorSpec Proofs.AggregatorOnce.
 
-Theorem C10_placeholder_flush_nil : forall F P (pf : P -> list (bytes * F)) c, flush F P pf [] c = ([], []).
-Proof. reflexivity. Qed.
-Print Assumptions C10_placeholder_flush_nil.
+(* 1. On every history of points and ticks the aggregator (running Avg/Count/.../Percentiles
+      processors) emits exactly what the specification aggregator emits, whose per-(bucket,key)
+      state is simply the list of contributed (value, timestamp) pairs in arrival order. *)
+Theorem C10_refines_spec :
+  forall F (fadd fsub fmul fdiv : F -> F -> F) (fsqrt : F -> F) (flt : F -> F -> bool) (of_N : N -> F) (f : fn)
+         interval wait (evs : list (aevent F)),
+    run1 F (proc F) (proc_new F f) (proc_add F fadd flt) (proc_flush F fadd fsub fmul fdiv fsqrt flt of_N)
+         interval wait (a_init (proc F)) evs =
+    run2 F (contrib F) (c_new F) (c_add F) (c_flush F fadd fsub fmul fdiv fsqrt flt of_N f)
+         interval wait (a_init (contrib F)) evs.
+Proof. intros. apply refines_spec. Qed.
+Print Assumptions C10_refines_spec.
+
+(* 2. What is reported for a list of contributed values: the configured function as a plain fold
+      (avg = sum/count, delta = max-min, derive over oldest/newest timestamp with no output when
+      they coincide, stdev, NIST R6 percentiles p25..p99 with the clamps, ...) *)
+Theorem C10_value :
+  forall F (fadd fsub fmul fdiv : F -> F -> F) (fsqrt : F -> F) (flt : F -> F -> bool) (of_N : N -> F) (f : fn) c,
+    c_flush F fadd fsub fmul fdiv fsqrt flt of_N f c = fun_spec F fadd fsub fmul fdiv fsqrt flt of_N f c.
+Proof. intros. apply value_spec. Qed.
+Print Assumptions C10_value.
+
+(* 3. A point touches exactly its own (bucket, key): it is appended there if the pair exists,
+      creates it if the bucket is still open (quantized > now - wait), is dropped (too old)
+      otherwise; every other (bucket, key) is unchanged. *)
+Theorem C10_contributes_once :
+  forall F wait (st : astate (contrib F)) key ts q v now,
+    bsorted (contrib F) (a_buckets (contrib F) st) ->
+    let st' := add_or_create F (contrib F) (c_new F) (c_add F) wait st key ts q v now in
+    (forall q' k', (q' <> q \/ k' <> key) -> lookup (contrib F) st' q' k' = lookup (contrib F) st q' k') /\
+    lookup (contrib F) st' q key =
+      match lookup (contrib F) st q key with
+      | Some c => Some (c_add F c v ts)
+      | None => if usub now wait <? q then Some (c_new F v ts) else None
+      end /\
+    bsorted (contrib F) (a_buckets (contrib F) st').
+Proof. intros. apply point_local. assumption. Qed.
+Print Assumptions C10_contributes_once.
+
+(* 4. A tick reports exactly the buckets whose start is at or before t - wait, in ascending order
+      of bucket start, one entry per bucket carrying one line per key (six for percentiles), and removes them. *)
+Theorem C10_emission :
+  forall F P pnew padd pflush interval wait (st : astate P) t,
+    bsorted P (a_buckets P st) ->
+    astep F P pnew padd pflush interval wait st (ATick F t) =
+    ({| a_buckets := filter (fun b => cutoff_of wait t <? fst b) (a_buckets P st); a_too_old := a_too_old P st |},
+     map (fun b => (fst b, emit_bucket F P pflush (snd b))) (filter (fun b => fst b <=? cutoff_of wait t) (a_buckets P st))).
+Proof. intros. apply tick_emits. assumption. Qed.
+Print Assumptions C10_emission.
+
+Theorem C10_reachable_sorted :
+  forall F P pnew padd pflush interval wait evs,
+    bsorted P (a_buckets P (run_state F P pnew padd pflush interval wait (a_init P) evs)).
+Proof. intros. apply reachable_sorted. constructor. Qed.
+Print Assumptions C10_reachable_sorted.
+
+(* 5. Never twice: in every history in which no clock reading is behind an earlier tick (and
+      readings are >= wait, so Go's unsigned subtraction does not wrap), no (bucket start, key)
+      pair is reported more than once — late points for a closed bucket change no output. *)
+Theorem C10_never_twice :
+  forall F P pnew padd pflush interval wait (evs : list (aevent F)),
+    clock_ok F wait 0 evs ->
+    NoDup (run_pairs F P pnew padd pflush interval wait (a_init P) evs).
+Proof. intros. apply never_twice. assumption. Qed.
+Print Assumptions C10_never_twice.
+
+(* non-vacuity: a concrete history under the clock hypothesis, on N as a toy "float" *)
+Example C10_nonvacuous :
+  let evs := [APoint N [97] 5 1003 1004; APoint N [97] 7 1009 1004; ATick N 1015; APoint N [97] 9 1003 1016; ATick N 1030] in
+  clock_ok N 5 0 evs /\
+  run2 N (contrib N) (c_new N) (c_add N) (c_flush N N.add N.sub N.mul N.div N.sqrt N.ltb (fun n => n) FSum) 10 5 (a_init (contrib N)) evs
+  = [[]; []; [(1000, [([97], 12)])]; []; [(1000, [])]].   (* the late point leaves an empty bucket: no line *)
+Proof. vm_compute. repeat split; try reflexivity; try discriminate; try (intro H; discriminate H). Qed.
